@@ -7,9 +7,13 @@ Property theorems about the executable model in `HvAlg/Model/Algebra.lean`
 Helper lemmas are named `aux_*`.
 -/
 import HvAlg.Model.Algebra
+import HvAlg.Gen.Composites
 import HvAlg.Model.Semiring
 import Mathlib.Data.List.Basic
 import Mathlib.Data.List.Nodup
+import Mathlib.Algebra.Order.Ring.Unbundled.Basic
+import Mathlib.Algebra.Order.Ring.Defs
+import Mathlib.Order.Lattice
 
 namespace HvAlg
 open List
@@ -206,7 +210,7 @@ theorem cartesianPower_enumerates (n : Nat) (items : List α) :
   · simp only [hi, if_false, CP.init]
     rw [aux_collect_rem items hi _ _ (aux_allNonempty_replicate n items hi), aux_rem_init items hi]
     rw [aux_rem_init items hi, aux_length_allTuples, fuelFor]
-    exact Nat.le_refl _
+    all_goals exact Nat.le_refl _
 
 /-- membership: a list is yielded iff it is an `n`-tuple over `items` -/
 theorem allTuples_mem (n : Nat) (items : List α) (t : List α) :
@@ -280,7 +284,7 @@ theorem forCP_eq (n : Nat) (items : List α) (body : List α → Res) :
   · simp only [hi, if_false, forCP, CP.init]
     rw [aux_forEach_rem items hi body _ _ (aux_allNonempty_replicate n items hi), aux_rem_init items hi]
     rw [aux_rem_init items hi, aux_length_allTuples, fuelFor]
-    exact Nat.le_refl _
+    all_goals exact Nat.le_refl _
 
 theorem aux_failIf_ok (b : Bool) (m : String) : failIf b m = .ok () ↔ b = false := by
   cases b <;> simp [failIf]
@@ -317,6 +321,54 @@ theorem aux_forCP3_ok_iff (items : List α) (body : List α → Res) :
     obtain ⟨hl, hm⟩ := (allTuples_mem 3 items t).mp ht
     match t, hl with
     | [a, b, c], _ => exact h a (hm a (by simp)) b (hm b (by simp)) c (hm c (by simp))
+
+theorem aux_forEach_error (l : List α) (body : α → Res) (e : String) (h : forEach l body = .error e) :
+    ∃ a ∈ l, body a = .error e := by
+  induction l with
+  | nil => simp [forEach] at h
+  | cons a l ih =>
+    simp only [forEach] at h
+    cases hb : body a with
+    | error e' =>
+      rw [hb] at h
+      exact ⟨a, by simp, by rw [hb]; exact h⟩
+    | ok u =>
+      cases u
+      rw [hb] at h
+      obtain ⟨x, hx, hbx⟩ := ih h
+      exact ⟨x, by simp [hx], hbx⟩
+
+theorem aux_forCP2_error (items : List α) (body : List α → Res) (e : String)
+    (h : forCP 2 items body = .error e) : ∃ a ∈ items, ∃ b ∈ items, body [a, b] = .error e := by
+  rw [forCP_eq] at h
+  obtain ⟨t, htm, ht⟩ := aux_forEach_error _ _ _ h
+  by_cases hi : items = []
+  · simp [hi] at htm
+  · simp only [hi, if_false] at htm
+    obtain ⟨hl, hm⟩ := (allTuples_mem 2 items t).mp htm
+    match t, hl with
+    | [a, b], _ => exact ⟨a, hm a (by simp), b, hm b (by simp), ht⟩
+
+theorem aux_forCP3_error (items : List α) (body : List α → Res) (e : String)
+    (h : forCP 3 items body = .error e) :
+    ∃ a ∈ items, ∃ b ∈ items, ∃ c ∈ items, body [a, b, c] = .error e := by
+  rw [forCP_eq] at h
+  obtain ⟨t, htm, ht⟩ := aux_forEach_error _ _ _ h
+  by_cases hi : items = []
+  · simp [hi] at htm
+  · simp only [hi, if_false] at htm
+    obtain ⟨hl, hm⟩ := (allTuples_mem 3 items t).mp htm
+    match t, hl with
+    | [a, b, c], _ => exact ⟨a, hm a (by simp), b, hm b (by simp), c, hm c (by simp), ht⟩
+
+theorem aux_failIf_error (b : Bool) (m e : String) (h : failIf b m = .error e) : e = m := by
+  cases b <;> simp [failIf] at h; exact h.symm
+
+theorem aux_andThen_error (a b : Res) (e : String) (h : andThen a b = .error e) :
+    a = .error e ∨ b = .error e := by
+  cases a with
+  | error e' => left; simpa [andThen] using h
+  | ok u => cases u; right; simpa [andThen] using h
 
 /-! ## The laws -/
 section laws
@@ -653,6 +705,192 @@ theorem cost_distrib_wrap_witness_bitvec :
     (1#32 + (if (4294967295#32) ≤ 0#32 then 4294967295#32 else 0#32))
       ≠ (if (1#32 + 4294967295#32) ≤ (1#32 + 0#32) then 1#32 + 4294967295#32 else 1#32 + 0#32) := by
   decide
+
+/-! ## Exactness of the `Err` answers: a checker that does not return `Ok` returns its own message
+(composites: the message of one of their component checks) -/
+
+theorem associativity_err_msg (items : List α) (f : α → α → α) (e : String)
+    (h : associativity items f = .error e) : e = "Associativity check failed." := by
+  obtain ⟨a, _, b, _, c, _, h⟩ := aux_forCP3_error _ _ _ h
+  exact aux_failIf_error _ _ _ h
+
+theorem commutativity_err_msg (items : List α) (f : α → α → α) (e : String)
+    (h : commutativity items f = .error e) : e = "Commutativity check failed." := by
+  obtain ⟨a, _, b, _, h⟩ := aux_forCP2_error _ _ _ h
+  exact aux_failIf_error _ _ _ h
+
+theorem idempotency_err_msg (items : List α) (f : α → α → α) (e : String)
+    (h : idempotency items f = .error e) : e = "Idempotency check failed." := by
+  obtain ⟨a, _, h⟩ := aux_forEach_error _ _ _ h
+  exact aux_failIf_error _ _ _ h
+
+/-- `identity` says which side failed first: `Left` iff some `a` (the first offending one) has `f e a ≠ a` -/
+theorem identity_err_msg (items : List α) (f : α → α → α) (e : α) (m : String)
+    (h : identity items f e = .error m) :
+    (m = "Left Identity check failed." ∧ ∃ a ∈ items, f e a ≠ a) ∨
+      (m = "Right Identity check failed." ∧ ∃ a ∈ items, f a e ≠ a) := by
+  obtain ⟨a, ha, h⟩ := aux_forEach_error _ _ _ h
+  rcases aux_andThen_error _ _ _ h with h | h
+  · left
+    refine ⟨aux_failIf_error _ _ _ h, a, ha, ?_⟩
+    intro hc; simp [failIf, hc] at h
+  · right
+    refine ⟨aux_failIf_error _ _ _ h, a, ha, ?_⟩
+    intro hc; simp [failIf, hc] at h
+
+theorem inverse_err_msg (items : List α) (f : α → α → α) (e : α) (b : α → α) (m : String)
+    (h : inverse items f e b = .error m) : m = "Inverse check failed." := by
+  obtain ⟨a, _, h⟩ := aux_forEach_error _ _ _ h
+  rcases aux_andThen_error _ _ _ h with h | h <;> exact aux_failIf_error _ _ _ h
+
+theorem nonzeroInverse_err_msg (items : List α) (f : α → α → α) (e zero : α) (b : α → α) (m : String)
+    (h : nonzeroInverse items f e zero b = .error m) : m = "Nonzero inverse check failed." := by
+  obtain ⟨a, _, h⟩ := aux_forEach_error _ _ _ h
+  split at h
+  · rcases aux_andThen_error _ _ _ h with h | h <;> exact aux_failIf_error _ _ _ h
+  · simp at h
+
+theorem absorbingElement_err_msg (items : List α) (f : α → α → α) (z : α) (m : String)
+    (h : absorbingElement items f z = .error m) : m = "Absorbing element property check failed." := by
+  obtain ⟨a, _, h⟩ := aux_forEach_error _ _ _ h
+  rcases aux_andThen_error _ _ _ h with h | h <;> exact aux_failIf_error _ _ _ h
+
+theorem leftDistributes_err_msg (items : List α) (f g : α → α → α) (m : String)
+    (h : leftDistributes items f g = .error m) : m = "Left distributive property check failed." := by
+  obtain ⟨a, _, b, _, c, _, h⟩ := aux_forCP3_error _ _ _ h
+  exact aux_failIf_error _ _ _ h
+
+theorem rightDistributes_err_msg (items : List α) (f g : α → α → α) (m : String)
+    (h : rightDistributes items f g = .error m) : m = "Right distributive property check failed." := by
+  obtain ⟨a, _, b, _, c, _, h⟩ := aux_forCP3_error _ _ _ h
+  exact aux_failIf_error _ _ _ h
+
+theorem noNonzeroZeroDivisors_err_msg (items : List α) (f : α → α → α) (zero : α) (m : String)
+    (h : noNonzeroZeroDivisors items f zero = .error m) : m = "No nonzero zero divisors check failed." := by
+  obtain ⟨a, _, h⟩ := aux_forEach_error _ _ _ h
+  obtain ⟨b, _, h⟩ := aux_forEach_error _ _ _ h
+  split at h
+  · rcases aux_andThen_error _ _ _ h with h | h <;> exact aux_failIf_error _ _ _ h
+  · simp at h
+
+theorem linearity_err_msg (items : List α) (f : α → α → α) (g : β → β → β) (q : α → β) (m : String)
+    (h : linearity items f g q = .error m) : m = "Linearity check failed." := by
+  obtain ⟨a, _, b, _, h⟩ := aux_forCP2_error _ _ _ h
+  exact aux_failIf_error _ _ _ h
+
+theorem bilinearity_err_msg (itemsF : List α) (itemsH : List γ) (f : α → α → α) (h : γ → γ → γ)
+    (g : β → β → β) (q : α → γ → β) (m : String)
+    (hm : bilinearity itemsF itemsH f h g q = .error m) : m = "Bilinearity check failed." := by
+  obtain ⟨a, _, b, _, hm⟩ := aux_forCP2_error _ _ _ hm
+  obtain ⟨c, _, d, _, hm⟩ := aux_forCP2_error _ _ _ hm
+  exact aux_failIf_error _ _ _ hm
+
+/-- the composite `semiring` fails with the message of the first failing component, in the order
+associativity(f), identity(f), commutativity(f), associativity(g), identity(g), absorbing, left, right -/
+theorem semiring_first_failure (items : List α) (f g : α → α → α) (zero one : α) :
+    semiring items f g zero one =
+      andThen (associativity items f) (andThen (identity items f zero) (andThen (commutativity items f)
+        (andThen (associativity items g) (andThen (identity items g one)
+          (andThen (absorbingElement items g zero)
+            (andThen (leftDistributes items f g) (rightDistributes items f g))))))) := by
+  simp only [semiring, commutativeMonoid, monoid, semigroup, distributive]
+  cases associativity items f <;> cases identity items f zero <;> cases commutativity items f <;>
+    cases associativity items g <;> cases identity items g one <;>
+    cases absorbingElement items g zero <;> cases leftDistributes items f g <;>
+    cases rightDistributes items f g <;> rfl
+
+/-- on a sample that covers the whole carrier, `semiring` returns `Ok` exactly for semirings -/
+theorem semiring_ok_iff_semiringLaws_of_complete (items : List α) (hc : ∀ x : α, x ∈ items)
+    (add mul : α → α → α) (zero one : α) :
+    semiring items add mul zero one = .ok () ↔ SemiringLaws add mul zero one := by
+  constructor
+  · rw [semiring_ok_iff_law]
+    rintro ⟨⟨h1, h2, h3⟩, ⟨h4, h5⟩, h6, h7, h8⟩
+    exact {
+      add_assoc := fun a b c => (h1 a (hc a) b (hc b) c (hc c)).symm
+      add_comm := fun a b => h3 a (hc a) b (hc b)
+      add_zero := fun a => ⟨(h2 a (hc a)).2, (h2 a (hc a)).1⟩
+      mul_assoc := fun a b c => (h4 a (hc a) b (hc b) c (hc c)).symm
+      mul_one := fun a => ⟨(h5 a (hc a)).2, (h5 a (hc a)).1⟩
+      mul_zero := fun a => h6 a (hc a)
+      left_distrib := fun a b c => h7 a (hc a) b (hc b) c (hc c)
+      right_distrib := fun a b c => h8 a (hc a) b (hc b) c (hc c) }
+  · exact fun h => semiring_ok_of_laws h items
+
+/-! ## Intended semantics of the two `f64` applications (exact arithmetic — NOT a statement about `f64`)
+
+`ConfidenceScore` = ([0,1], max, ·, 0, 1) and `FuzzyLogic` = ([0,1], max, min, 0, 1) are semirings when the
+operations are the exact ones of a linearly ordered commutative ring.  Floating point is not modelled:
+for the real `f64` code the laws are evaluated by the harness, and multiplication is in fact not
+associative there (finding F3). -/
+
+/-- the semiring laws on the part `P` of the carrier (closed under the operations) -/
+structure SemiringLawsOn {S : Type} (P : S → Prop) (add mul : S → S → S) (zero one : S) : Prop where
+  zero_mem : P zero
+  one_mem : P one
+  add_mem : ∀ a b, P a → P b → P (add a b)
+  mul_mem : ∀ a b, P a → P b → P (mul a b)
+  add_assoc : ∀ a b c, P a → P b → P c → add (add a b) c = add a (add b c)
+  add_comm : ∀ a b, P a → P b → add a b = add b a
+  add_zero : ∀ a, P a → add a zero = a ∧ add zero a = a
+  mul_assoc : ∀ a b c, P a → P b → P c → mul (mul a b) c = mul a (mul b c)
+  mul_one : ∀ a, P a → mul a one = a ∧ mul one a = a
+  mul_zero : ∀ a, P a → mul a zero = zero ∧ mul zero a = zero
+  left_distrib : ∀ a b c, P a → P b → P c → mul a (add b c) = add (mul a b) (mul a c)
+  right_distrib : ∀ a b c, P a → P b → P c → mul (add b c) a = add (mul b a) (mul c a)
+
+/-- the `semiring` checker accepts every sample drawn from `P` -/
+theorem semiring_ok_of_lawsOn {P : α → Prop} {add mul : α → α → α} {zero one : α}
+    (h : SemiringLawsOn P add mul zero one) (items : List α) (hP : ∀ x ∈ items, P x) :
+    semiring items add mul zero one = .ok () := by
+  rw [semiring_ok_iff_law]
+  refine ⟨⟨?_, ?_, ?_⟩, ⟨?_, ?_⟩, ?_, ?_, ?_⟩
+  · intro a ha b hb c hc; exact (h.add_assoc a b c (hP a ha) (hP b hb) (hP c hc)).symm
+  · intro a ha; exact ⟨(h.add_zero a (hP a ha)).2, (h.add_zero a (hP a ha)).1⟩
+  · intro a ha b hb; exact h.add_comm a b (hP a ha) (hP b hb)
+  · intro a ha b hb c hc; exact (h.mul_assoc a b c (hP a ha) (hP b hb) (hP c hc)).symm
+  · intro a ha; exact ⟨(h.mul_one a (hP a ha)).2, (h.mul_one a (hP a ha)).1⟩
+  · intro a ha; exact h.mul_zero a (hP a ha)
+  · intro a ha b hb c hc; exact h.left_distrib a b c (hP a ha) (hP b hb) (hP c hc)
+  · intro a ha b hb c hc; exact h.right_distrib a b c (hP a ha) (hP b hb) (hP c hc)
+
+section intended
+variable {K : Type} [CommRing K] [LinearOrder K] [IsStrictOrderedRing K]
+
+/-- the unit interval `0.0..=1.0` enforced by `ConfidenceScore::new` / `FuzzyLogic::new` -/
+def UnitInterval (x : K) : Prop := 0 ≤ x ∧ x ≤ 1
+
+theorem confidenceScore_semiring_exact_arithmetic :
+    SemiringLawsOn (UnitInterval (K := K)) max (· * ·) 0 1 where
+  zero_mem := ⟨le_refl _, zero_le_one⟩
+  one_mem := ⟨zero_le_one, le_refl _⟩
+  add_mem := fun a b ha hb => ⟨le_trans ha.1 (le_max_left a b), max_le ha.2 hb.2⟩
+  mul_mem := fun a b ha hb => ⟨mul_nonneg ha.1 hb.1, mul_le_one₀ ha.2 hb.1 hb.2⟩
+  add_assoc := fun a b c _ _ _ => max_assoc a b c
+  add_comm := fun a b _ _ => max_comm a b
+  add_zero := fun a ha => ⟨max_eq_left ha.1, max_eq_right ha.1⟩
+  mul_assoc := fun a b c _ _ _ => _root_.mul_assoc a b c
+  mul_one := fun a _ => ⟨_root_.mul_one a, _root_.one_mul a⟩
+  mul_zero := fun a _ => ⟨MulZeroClass.mul_zero a, MulZeroClass.zero_mul a⟩
+  left_distrib := fun a b c ha _ _ => mul_max_of_nonneg b c ha.1
+  right_distrib := fun a b c ha _ _ => max_mul_of_nonneg b c ha.1
+
+theorem fuzzyLogic_semiring_exact_arithmetic :
+    SemiringLawsOn (UnitInterval (K := K)) max min 0 1 where
+  zero_mem := ⟨le_refl _, zero_le_one⟩
+  one_mem := ⟨zero_le_one, le_refl _⟩
+  add_mem := fun a b ha hb => ⟨le_trans ha.1 (le_max_left a b), max_le ha.2 hb.2⟩
+  mul_mem := fun a b ha hb => ⟨le_min ha.1 hb.1, le_trans (min_le_left a b) ha.2⟩
+  add_assoc := fun a b c _ _ _ => max_assoc a b c
+  add_comm := fun a b _ _ => max_comm a b
+  add_zero := fun a ha => ⟨max_eq_left ha.1, max_eq_right ha.1⟩
+  mul_assoc := fun a b c _ _ _ => min_assoc a b c
+  mul_one := fun a ha => ⟨min_eq_left ha.2, min_eq_right ha.2⟩
+  mul_zero := fun a ha => ⟨min_eq_right ha.1, min_eq_left ha.1⟩
+  left_distrib := fun a b c _ _ _ => min_max_distrib_left a b c
+  right_distrib := fun a b c _ _ _ => min_max_distrib_right b c a
+
+end intended
 
 /-! ## Non-vacuity: concrete instances -/
 
